@@ -1,7 +1,179 @@
 import NpsVerif.Model.HashTable
 import NpsVerif.Gen.Bridge.ht_hash
+import NpsVerif.Proofs.HTInv
+import NpsVerif.Proofs.HTDict
+import NpsVerif.Proofs.HTSim
+import NpsVerif.Proofs.HTCount
+import NpsVerif.Proofs.HTBuild
+/-!
+# C11: `HashTable` refines a plain dictionary
+
+The simulation relation `Proofs.HT.R`, the invariant `Proofs.HT.Inv`, the per-operation simulation
+lemmas (`Proofs.HT.sim_*`, `sim_step`, `sim_run`, `sim_runState`) and the constructor lemmas
+(`Proofs.HT.build_R_inl`, `build_R_inr`) are in `NpsVerif/Proofs/HT*.lean`; `build_R` below packages
+them with the definitions of this file for reuse (C12).
+-/
+open Model Model.HT
+
 namespace Props.C11
-open Model.HT
-/-- sanity instance; the universally quantified theorems are added as they are proved -/
+open Proofs.HT
+
+/-- what `np.argsort(hashes)` may return: any permutation of the positions that sorts the hashes
+(numpy's default sort is not stable) -/
+def IsSortingPerm (args : List Nat) (hashes : List Nat) : Prop :=
+  args.Perm (List.range hashes.length) ∧ (args.filterMap (hashes[·]?)).Pairwise (· ≤ ·)
+
+/-- the dictionary a table is built from -/
+def dict0 (keys : List Int) (vals : Sum Int (List Int)) : Spec.Dict Int :=
+  match vals with
+  | .inl s => keys.map (fun k => (k, s))
+  | .inr vs => keys.zip vs
+
+/-- an operation is inside the property's statement: a single lookup asks for a present key -/
+def WF (keys : List Int) : Op → Prop
+  | .get1 k => k ∈ keys
+  | _ => True
+
+/-- values handed to the constructor: a scalar, or one value per key -/
+def ValsOK (keys : List Int) : Sum Int (List Int) → Prop
+  | .inl _ => True
+  | .inr vs => vs.length = keys.length
+
+/-- sanity instance -/
 theorem build_example : ((build [10, 19, 20] (.inr [1, 2, 3]) 3 [1, 0, 2]).map (·.buckets)) = some [[], [19, 10], [20]] := by decide
+
+/-- the stable argsort the driver uses is one of the admissible permutations -/
+theorem C11_stable_argsort_ok (hashes : List Nat) : IsSortingPerm (stableArgsort hashes) hashes :=
+  stableArgsort_facts hashes
+
+theorem WF.get1 {keys : List Int} {op : Op} (h : WF keys op) : ∀ k, op = .get1 k → k ∈ keys := by
+  intro k e; subst e; exact h
+
+/-- the constructor accepts, and establishes the simulation relation with the initial dictionary
+(the entry point for everything about built tables; reused by C12) -/
+theorem build_R (keys : List Int) (hnd : keys.Nodup) (vals : Sum Int (List Int)) (hv : ValsOK keys vals)
+    (mod : Nat) (hm : 0 < mod) (args : List Nat) (hs : IsSortingPerm args (keys.map (hashOf mod))) :
+    ∃ t, build keys vals mod args = some t ∧ t.mod = mod ∧ R keys t (dict0 keys vals) := by
+  have H : SortedArgs keys mod args := ⟨hm, hs.1, hs.2⟩
+  cases vals with
+  | inl s => exact build_R_inl keys mod args H hnd s
+  | inr vs => exact build_R_inr keys mod args H hnd vs hv
+
+/-- the constructor accepts distinct keys with any modulus ≥ 1 and any sorting permutation, and bucket
+`h` then holds exactly the keys whose hash is `h`, each once -/
+theorem C11_build_buckets (keys : List Int) (hnd : keys.Nodup) (vals : Sum Int (List Int)) (hv : ValsOK keys vals)
+    (mod : Nat) (hm : 0 < mod) (args : List Nat) (hs : IsSortingPerm args (keys.map (hashOf mod))) :
+    ∃ t, build keys vals mod args = some t ∧ t.buckets.length = mod ∧
+      (∀ (h : Nat) (row : List Int), t.buckets[h]? = some row → ∀ k, k ∈ row ↔ (k ∈ keys ∧ hashOf mod k = h)) ∧
+      t.buckets.flatten.Perm keys := by
+  obtain ⟨t, hb, hmod, r⟩ := build_R keys hnd vals hv mod hm args hs
+  refine ⟨t, hb, by rw [r.inv.len, hmod], ?_, r.inv.perm⟩
+  intro h row hr k
+  rw [← hmod]
+  exact r.inv.mem_bucket hr k
+
+/-- HEADLINE (refinement): for every set of distinct keys, every initial values, every modulus ≥ 1,
+every admissible sorting permutation and EVERY finite history of operations, the observation trace
+of the hash table equals the trace of the plain dictionary -/
+theorem C11_refines (keys : List Int) (hnd : keys.Nodup) (vals : Sum Int (List Int)) (hv : ValsOK keys vals)
+    (mod : Nat) (hm : 0 < mod) (args : List Nat) (hs : IsSortingPerm args (keys.map (hashOf mod)))
+    (ops : List Op) (hops : ∀ op ∈ ops, WF keys op) :
+    ∃ t, build keys vals mod args = some t ∧ Model.HT.run t ops = Spec.Dict.run (dict0 keys vals) ops := by
+  obtain ⟨t, hb, _, r⟩ := build_R keys hnd vals hv mod hm args hs
+  exact ⟨t, hb, sim_run ops t _ r (fun op h => (hops op h).get1)⟩
+
+/-- corollary: results do not depend on the modulus nor on the permutation the sort returned -/
+theorem C11_mod_independent (keys : List Int) (hnd : keys.Nodup) (vals : Sum Int (List Int)) (hv : ValsOK keys vals)
+    (m1 m2 : Nat) (h1 : 0 < m1) (h2 : 0 < m2) (a1 a2 : List Nat)
+    (hs1 : IsSortingPerm a1 (keys.map (hashOf m1))) (hs2 : IsSortingPerm a2 (keys.map (hashOf m2)))
+    (ops : List Op) (hops : ∀ op ∈ ops, WF keys op) :
+    ∃ t1 t2, build keys vals m1 a1 = some t1 ∧ build keys vals m2 a2 = some t2 ∧
+      Model.HT.run t1 ops = Model.HT.run t2 ops := by
+  obtain ⟨t1, hb1, e1⟩ := C11_refines keys hnd vals hv m1 h1 a1 hs1 ops hops
+  obtain ⟨t2, hb2, e2⟩ := C11_refines keys hnd vals hv m2 h2 a2 hs2 ops hops
+  exact ⟨t1, t2, hb1, hb2, by rw [e1, e2]⟩
+
+/-- dictionary facts that make the refinement meaningful: a vector lookup containing an absent key is
+refused; assignment changes the assigned keys only; the key set never changes -/
+theorem C11_dict_absent_refused (d : Spec.Dict Int) (ks : List Int) (k : Int) (hk : k ∈ ks) (ha : d.mem k = false) :
+    (Spec.Dict.step d (.getVec ks)).2 = .vals none := by
+  have hl : Spec.Dict.lookup d k = none := by
+    rw [Dict.mem_eq] at ha
+    exact Dict.lookup_none (by simpa using ha)
+  have : ks.mapM (Spec.Dict.lookup d) = none := by
+    induction ks with
+    | nil => cases hk
+    | cons q ks ih =>
+      rw [mapM_cons']
+      rcases List.mem_cons.1 hk with e | h
+      · rw [← e, hl]; rfl
+      · rw [ih h]
+        cases Spec.Dict.lookup d q <;> rfl
+  simp only [Spec.Dict.step, this]
+
+theorem C11_dict_assign_frame (d : Spec.Dict Int) (k k' : Int) (x : Int) (hne : k' ≠ k) :
+    (d.assign k x).lookup k' = d.lookup k' := by
+  rw [Dict.lookup_assign, if_neg hne]
+
+theorem assignAll_keys (ws : List (Int × Int)) (d : Spec.Dict Int) : (assignAll d ws).map (·.1) = d.map (·.1) := by
+  induction ws generalizing d with
+  | nil => rfl
+  | cons w ws ih =>
+    simp only [assignAll, List.foldl_cons] at ih ⊢
+    rw [ih, Dict.keys_assign]
+
+theorem C11_dict_keys_constant (d : Spec.Dict Int) (op : Op) :
+    ((Spec.Dict.step d op).1).map (·.1) = d.map (·.1) := by
+  cases op with
+  | get1 k => rfl
+  | getVec ks => rfl
+  | setScalar ks x =>
+    simp only [Spec.Dict.step]
+    split
+    · rw [foldl_assign_const, assignAll_keys]
+    · rfl
+  | setEach ks xs =>
+    simp only [Spec.Dict.step]
+    split
+    · exact assignAll_keys _ d
+    · rfl
+  | fill x => exact Dict.keys_mapval d (fun _ _ => x)
+  | contains ks => rfl
+  | items => rfl
+  | count s => exact Dict.keys_mapval d (fun k y => y + ((s.count k : Nat) : Int))
+
+/-! ## concrete instances -/
+
+/-- modulus 1: all keys collide in the single bucket -/
+example : (build [5, 7, 9] (.inr [1, 2, 3]) 1 [0, 1, 2]).map (·.buckets) = some [[5, 7, 9]] := by decide
+
+/-- an unstable but admissible sorting permutation: the bucket order differs, the observations do not -/
+example : IsSortingPerm [1, 0, 3, 2] ([10, 19, 20, -1].map (hashOf 3)) := by unfold IsSortingPerm; decide
+example : (build [10, 19, 20, -1] (.inl 0) 3 [1, 0, 3, 2]).map (·.buckets) = some [[], [19, 10], [-1, 20]] := by decide
+example : (build [10, 19, 20, -1] (.inl 0) 3 [1, 0, 2, 3]).map (·.buckets) = some [[], [19, 10], [20, -1]] := by decide
+
+/-- a history on the all-colliding table: a refused vector lookup (`4` is absent), a refused
+assignment, a membership test, a count (the non-key sample `4` is ignored), a fill -/
+def exampleOps : List Op :=
+  [.getVec [9, 5], .setScalar [7] 100, .getVec [7, 4], .setEach [4] [1], .contains [4, 5],
+   .count [5, 5, 9, 4], .getVec [5, 7, 9], .get1 7, .fill 3, .get1 5]
+
+def exampleObs : List Obs :=
+  [.vals (some [3, 1]), .done true, .vals none, .done false, .bools [false, true],
+   .done true, .vals (some [3, 100, 4]), .vals (some [100]), .done true, .vals (some [3])]
+
+example : (build [5, 7, 9] (.inr [1, 2, 3]) 1 [0, 1, 2]).map (fun t => Model.HT.run t exampleOps)
+    = some exampleObs := by decide
+example : Spec.Dict.run (dict0 [5, 7, 9] (.inr [1, 2, 3])) exampleOps = exampleObs := by decide
+
+/-- the headline theorem at a concrete table, with the `items` observation in the history -/
+example : ∃ t, build [10, 19, 20, -1] (.inl 0) 3 [1, 0, 3, 2] = some t ∧
+    Model.HT.run t [.get1 19, .setEach [20, -1] [7, 8], .getVec [10, 3], .count [19, 19, 20, 4], .items]
+      = Spec.Dict.run (dict0 [10, 19, 20, -1] (.inl 0))
+          [.get1 19, .setEach [20, -1] [7, 8], .getVec [10, 3], .count [19, 19, 20, 4], .items] :=
+  C11_refines [10, 19, 20, -1] (by decide) (.inl 0) trivial 3 (by decide) _ (by unfold IsSortingPerm; decide) _
+    (by intro op hop
+        simp only [List.mem_cons, List.mem_nil_iff, or_false] at hop
+        rcases hop with h | h | h | h | h <;> subst h <;> simp [WF])
+
 end Props.C11
